@@ -369,8 +369,9 @@ MentionsForced(ev, t) ==       \* a resolved term whose normal form contains a f
    _realize_c_struct_or_union calls do_realize_lazy_struct at once: realizing a struct realizes
    its field types, and the structs found there - also behind pointers - in turn.  A function
    type met on the way needs its by-value argument/result aggregates complete
-   (new_function_type); if such an aggregate is one of those still under construction the
-   realization fails ("invalid result type" / "has incomplete type"), although the in-line FFI,
+   (new_function_type), an array type its item (new_array_type); if such an aggregate is one of
+   those still under construction the realization fails ("invalid result type" / "has incomplete
+   type" / "array item of unknown size"), although the in-line FFI,
    which delays a struct behind a pointer, accepts the same declarations. *)
 TouchItems(ev, t) ==
   CASE t[1] = "fnp" -> {t[2]} \cup {t[3][i] : i \in DOMAIN t[3]}
@@ -381,7 +382,10 @@ TouchItems(ev, t) ==
 RECURSIVE TouchClose(_, _)
 TouchClose(ev, S) == LET S2 == S \cup UNION {TouchItems(ev, t) : t \in S}
                      IN IF S2 = S THEN S ELSE TouchClose(ev, S2)
-FnByVal(t) == IF t[1] = "fnp" THEN {x \in {t[2]} \cup {t[3][i] : i \in DOMAIN t[3]} : IsSU(x)} ELSE {}
+\* aggregates a type needs complete the moment it is built: by-value arguments / result of a
+\* function type (new_function_type), the item of an array type (new_array_type)
+FnByVal(t) == IF t[1] = "fnp" THEN {x \in {t[2]} \cup {t[3][i] : i \in DOMAIN t[3]} : IsSU(x)}
+              ELSE IF t[1] = "arr" THEN {x \in NeedsNow(t[2]) : IsSU(x)} ELSE {}
 EagerCycleSUs(ev) ==
   {k \in DOMAIN ev.su : ev.su[k].complete /\ \E f \in TouchClose(ev, TouchItems(ev, k)) : k \in FnByVal(f)}
 TouchesCycle(ev, t) == \E k \in EagerCycleSUs(ev) : k \in TouchClose(ev, {t})
